@@ -192,6 +192,12 @@ macro_rules! define_aes_impl {
                 } else {
                     unsafe { ManuallyDrop::drop(&mut self.inner.soft) };
                 };
+                // The backends wipe only their own arm; the union is larger than the smaller
+                // arm and its remaining bytes are copied along by every move of the value.
+                #[cfg(feature = "zeroize")]
+                unsafe {
+                    zeroize::zeroize_flat_type(&mut self.inner)
+                }
             }
         }
 
@@ -295,6 +301,12 @@ macro_rules! define_aes_impl {
                 } else {
                     unsafe { ManuallyDrop::drop(&mut self.inner.soft) };
                 };
+                // The backends wipe only their own arm; the union is larger than the smaller
+                // arm and its remaining bytes are copied along by every move of the value.
+                #[cfg(feature = "zeroize")]
+                unsafe {
+                    zeroize::zeroize_flat_type(&mut self.inner)
+                }
             }
         }
 
@@ -427,6 +439,12 @@ macro_rules! define_aes_impl {
                 } else {
                     unsafe { ManuallyDrop::drop(&mut self.inner.soft) };
                 };
+                // The backends wipe only their own arm; the union is larger than the smaller
+                // arm and its remaining bytes are copied along by every move of the value.
+                #[cfg(feature = "zeroize")]
+                unsafe {
+                    zeroize::zeroize_flat_type(&mut self.inner)
+                }
             }
         }
 
